@@ -697,12 +697,13 @@ pub fn run_shard(ctx: &mut Ctx) {
     {
         // a crash right after a full request queue was drained and acknowledged
         let n = if ctx.tier == Tier::Quick { 1 } else { 20 };
-        let t0 = ctx.t0;
-        let b = ctx.budget_s;
-        crate::props::maxbatch::run(&mut ctx.out, n, &mut r, &|| util::now_s() - t0 < b);
+        let dl = ctx.begin_phase(0.1);
+        crate::props::maxbatch::run(&mut ctx.out, n, &mut r, &|| util::now_s() < dl);
         // real crashes: a child process running a history is killed with SIGKILL and its directory recovered
         let n = if ctx.tier == Tier::Quick { 12 } else { 2000 };
-        crate::props::kill9::run(&mut ctx.out, n, &mut r, &|| util::now_s() - t0 < b * 0.5);
+        let dl = ctx.begin_phase(0.3);
+        crate::props::kill9::run(&mut ctx.out, n, &mut r, &|| util::now_s() < dl);
+        ctx.end_phase();
     }
     loop {
         if ctx.tier == Tier::Quick && h >= quick_n {
